@@ -461,8 +461,8 @@ def run(ctx, rec):
     rng = ctx.rng("c02")
     bases = [(l, d) for l, d in spec.structural_designs()]
     rng.shuffle(bases)
-    bases = bases[: (40 if ctx.quick else 200)]
-    for k in range(55 if ctx.quick else 300):
+    bases = bases[: (40 if ctx.quick else 320)]
+    for k in range(55 if ctx.quick else 640):
         bases.append((f"random #{k}", spec.random_design(rng, max_modules=3)))
     if ctx.nshards > 1:
         bases = bases[ctx.shard:: ctx.nshards]
@@ -473,7 +473,7 @@ def run(ctx, rec):
         if k % 4 == 0:
             after_failed_parent(rec, label, base)
     for label, base in bases:
-        for cls, site, d, expect in mutations(base, rng, 2 if ctx.quick else 4):
+        for cls, site, d, expect in mutations(base, rng, 2 if ctx.quick else 5):
             confirmed = True
             if cls not in BY_CONSTRUCTION:
                 inv = refsem.validate(d)
